@@ -961,7 +961,9 @@ func (s *Sym) evalCall(v *ssa.Call) *Term {
 	case "github.com/cloudflare/pat-go/quicwire.AppendVarint", "quicwire.AppendVarint":
 		return catTerms(s.Of(cc.Args[0]), T("varint", "", s.Of(cc.Args[1])))
 	case "quicwire.AppendVarintBytes":
-		return catTerms(s.Of(cc.Args[0]), T("lpv", "", s.Of(cc.Args[1])))
+		// varint(len(v)) || v, spelled the way the two-step form is
+		body := s.Of(cc.Args[1])
+		return catTerms(s.Of(cc.Args[0]), T("varint", "", T("conv", "uint64", T("len", "", body))), body)
 	case "quicwire.AppendUint8Bytes":
 		return catTerms(s.Of(cc.Args[0]), T("lp8", "", s.Of(cc.Args[1])))
 	case "golang.org/x/crypto/cryptobyte.NewBuilder":
